@@ -771,7 +771,9 @@ class StretchyTreeMatcher:
                         break
                     # TODO: make this a smarter comparison, maybe handle dictionaries, f-strings, tuples, etc.
                     if is_primitive(inssub_value):
-                        is_match = inssub_value == stdsub_value
+                        # 1, 1.0 and True are equal in Python, but not the same literal
+                        is_match = (type(inssub_value) == type(stdsub_value)
+                                    and inssub_value == stdsub_value)
         if is_match:
             mapping = AstMap()  # return MAPPING
             mapping.add_node_pairing(ins_node, std_node)
